@@ -38,4 +38,21 @@ pub mod verif_hooks {
     > {
         proof.verification_scalars(n, transcript)
     }
+
+    std::thread_local! {
+        static PHASE2_OVERRIDE: core::cell::RefCell<Option<[ark_std::vec::Vec<u8>; 3]>> = core::cell::RefCell::new(None);
+    }
+
+    /// Arms a one-shot replacement (compressed encodings) of the second-phase commitments
+    /// (A_I2, A_O2, S2) that the next `prove` on this thread absorbs and publishes: lets the
+    /// harness run the otherwise unmodified proving procedure as a dishonest prover.
+    pub fn set_phase2_override(points: Option<[ark_std::vec::Vec<u8>; 3]>) {
+        PHASE2_OVERRIDE.with(|c| *c.borrow_mut() = points);
+    }
+
+    pub(crate) fn take_phase2_override<G: ark_ec::AffineRepr>() -> Option<(G, G, G)> {
+        let b = PHASE2_OVERRIDE.with(|c| c.borrow_mut().take())?;
+        let d = |x: &ark_std::vec::Vec<u8>| G::deserialize_compressed(&x[..]).ok();
+        Some((d(&b[0])?, d(&b[1])?, d(&b[2])?))
+    }
 }
